@@ -125,6 +125,145 @@ def atom_bounds(d, key, types):
     return lo, hi
 
 
+def ival(e, d, depth=0):
+    """(lo, hi) of integer expression e in disjunct d by structural interval arithmetic: masks, shifts, divisions and
+    conversions are followed, leaves take their range from the facts of d, proven field invariants and their type."""
+    e0 = e
+    e = sk(e)
+    if e is None or depth > 12:
+        return None, None
+    v = cval(e)
+    if v is not None:
+        return v, v
+    k = e.get("k")
+    t = e.get("t") or {}
+
+    def clamp(lo, hi, t_):
+        if t_.get("k") in ("int", "bool", "enum") and t_.get("bits"):
+            b = t_["bits"]
+            if t_.get("signed") is False:
+                if lo is None or hi is None or lo < 0 or hi > (1 << b) - 1:
+                    return 0, (1 << b) - 1
+            elif b <= 16:
+                m = 1 << (b - 1)
+                if lo is None or hi is None or lo < -m or hi > m - 1:
+                    return -m, m - 1
+        return lo, hi
+    # explicit / implicit conversions on the way down (sk() strips them): apply the outermost narrowing
+    chain = []
+    x = e0
+    while isinstance(x, dict) and x.get("k") in ("ICast", "Cast", "Paren") and x.get("a"):
+        chain.append(x.get("t") or {})
+        x = x["a"][0]
+    if k == "Bin":
+        op = e["op"]
+        a, b_ = e["a"][0], e["a"][1]
+        la, ha = ival(a, d, depth + 1)
+        lb, hb = ival(b_, d, depth + 1)
+        lo = hi = None
+        if op == "&":
+            cands = [h for l_, h in ((la, ha), (lb, hb)) if l_ is not None and l_ >= 0 and h is not None]
+            if cands:
+                lo, hi = 0, min(cands)
+        elif op == ">>" and lb is not None and lb == hb and lb >= 0 and la is not None and la >= 0:
+            lo, hi = la >> lb, (ha >> lb if ha is not None else None)
+        elif op == "<<" and lb is not None and lb == hb and 0 <= lb < 32 and la is not None and la >= 0 and ha is not None:
+            lo, hi = la << lb, ha << lb
+        elif op == "|" and None not in (la, ha, lb, hb) and la >= 0 and lb >= 0:
+            lo, hi = max(la, lb), (1 << max(ha.bit_length(), hb.bit_length())) - 1
+        elif op == "+":
+            lo = la + lb if None not in (la, lb) else None
+            hi = ha + hb if None not in (ha, hb) else None
+        elif op == "-":
+            lo = la - hb if None not in (la, hb) else None
+            hi = ha - lb if None not in (ha, lb) else None
+        elif op == "*" and None not in (la, ha, lb, hb) and la >= 0 and lb >= 0:
+            lo, hi = la * lb, ha * hb
+        elif op == "/" and lb is not None and lb == hb and lb > 0 and la is not None and la >= 0:
+            lo, hi = la // lb, (ha // lb if ha is not None else None)
+        elif op == "%" and lb is not None and lb > 0 and hb is not None and la is not None and la >= 0:
+            lo, hi = 0, (min(ha, hb - 1) if ha is not None else hb - 1)
+        lo, hi = clamp(lo, hi, t)
+    elif k == "Cond":
+        l1, h1 = ival(e["a"][1], d, depth + 1)
+        l2, h2 = ival(e["a"][2], d, depth + 1)
+        lo = min(l1, l2) if None not in (l1, l2) else None
+        hi = max(h1, h2) if None not in (h1, h2) else None
+    else:
+        lo, hi = atom_bounds(d, pp(e), {pp(e): t})
+        lo, hi = clamp(lo, hi, t)
+    for ct in reversed(chain):
+        lo, hi = clamp(lo, hi, ct)
+    return lo, hi
+
+
+def walk_index_ok(P, E, f, sub, n):
+    """Second opinion for an index obligation E1 cannot close: walk every path of f with the linear engine (loops
+    generalised inductively, calls killing what they may write), seeded with the proven field invariants and unsigned
+    type ranges, and check 0 <= index <= n - 1 where the subscript is evaluated.  Returns (ok, detail)."""
+    from . import termin, sym
+    loc = E.locate(f, sub["n"])
+    if loc is None:
+        return False, "not located"
+    res = []
+
+    class IW(termin.TW):
+        def atom(self2, key, e, st):
+            fm = termin.TW.atom(self2, key, e, st)
+            t = e.get("t") or {}
+            lo, hi = atom_bounds(frozenset(), key, {key: t})
+            if e.get("k") == "Call" and e.get("fn") == "strlen" and e.get("a"):
+                sb = STR_AXIOMS.get(pp(sk(e["a"][0])))
+                if sb is not None:
+                    hi = sb if hi is None else min(hi, sb)
+            if lo is not None:
+                c = (((key, 1),), lo)
+                if c not in st.cons:
+                    st.cons.append(c)
+            if hi is not None:
+                c = (((key, -1),), -hi)
+                if c not in st.cons:
+                    st.cons.append(c)
+            return fm
+
+        def on_elem(self2, b, e, st):
+            if self2.record and b.id == loc[0] and e is b.elems[loc[1]]:
+                idx = self2.lin(sub["a"][1], st)
+                if idx is None:
+                    res.append((False, "index not linear on a path"))
+                else:
+                    up = L.sub(({}, n - 1), idx)
+                    ok = self2.implied(st, up) and (not idx[0] and idx[1] >= 0 or self2.implied(st, idx))
+                    res.append((ok, "index %s" % L.show(idx)))
+            termin.TW.on_elem(self2, b, e, st)
+            # proven producer contracts (M3r): result <= capacity argument + k
+            for y in ir.walk(sk(e)):
+                if y.get("k") == "Bin" and y["op"] == "=" and sk(y["a"][1]).get("k") == "Call":
+                    c = sk(y["a"][1])
+                    ru = E.ret_ub.get(c.get("fn"))
+                    if ru is None or len(c.get("a", ())) <= ru[0]:
+                        continue
+                    if len(ru) > 2 and cval(sk(c["a"][ru[2][0]])) != ru[2][1]:
+                        continue
+                    res_ = self2.lin(sk(y["a"][0]), st)
+                    cap = self2.lin(c["a"][ru[0]], st)
+                    if res_ is not None and cap is not None:
+                        d_ = L.sub((cap[0], cap[1] + ru[1]), res_)
+                        at, bd = sym._norm(d_)
+                        if at:
+                            st.cons.append((at, bd))
+    try:
+        w = IW(P, f, {})
+        w.record = True
+        w._walk(f.entry, sym.State(), frozenset(), [], None)
+    except Exception as ex:
+        return False, "walk failed: %s" % ex
+    if not res:
+        return False, "subscript not reached by the walk"
+    bad = [d for ok, d in res if not ok]
+    return not bad, ("%d path states, all with 0 <= index <= %d" % (len(res), n - 1) if not bad else "%s not within 0..%d on some path" % (bad[0], n - 1))
+
+
 def nonneg(d, form, types=None, depth=0):
     """form >= 0 in disjunct d, using E1's prover, type ranges and proven field invariants."""
     if guard.d_nonneg(d, form):
@@ -447,6 +586,65 @@ class Analysis:
                             bad = "index %s may be negative" % L.show(idx)
                     self.sites.append(Site("M4", f, x, pp(lhs)[:50], bad is None,
                                            "0 <= index < %d" % n if bad is None else "%s for %s[%d]" % (bad, pp(base), n)))
+
+    def m4_loads(self, answer_only=()):
+        """M4l: reads a[e] (and stores through a[e].field) of a fixed-size array with a computed index; plain stores
+        a[e] = v are M4, character-indexed tables M1.  Subscripts that are only measured (sizeof) or only have their
+        address taken for a callee judged by M3/M3c are not accesses."""
+        for f in self.reach:
+            an = None
+            skip = set()
+            for b, x in f.all_nodes():
+                if x.get("k") == "Bin" and x["op"] in ir.ASSIGN_OPS and sk(x["a"][0]).get("k") == "Sub":
+                    skip.add(sk(x["a"][0]).get("n"))
+                if x.get("k") in ("Sizeof", "UETT"):
+                    for y in ir.walk(x):
+                        skip.add(y.get("n"))
+                if x.get("k") == "Un" and x["op"] == "&" and sk(x["a"][0]).get("k") == "Sub":
+                    skip.add(sk(x["a"][0]).get("n"))
+            seen = set()
+            for b, x in f.all_nodes():
+                if x.get("k") != "Sub" or x.get("n") in skip:
+                    continue
+                base = sk(x["a"][0])
+                bt = base.get("t") or {}
+                if bt.get("k") != "array" or cval(sk(x["a"][1])) is not None or "fds_bits" in pp(x):
+                    continue
+                n = bt.get("n")
+                key = (pp(x), ir.loc(x))
+                if key in seen or n is None:
+                    continue
+                seen.add(key)
+                if (f.name, pp(base)) in answer_only:
+                    continue
+                an = an or self.E.analysis(f)
+                ds = an.before_node(x["n"])
+                if ds is None:
+                    continue
+                what = pp(x)[:50]
+                bad = None
+                for d in ds:
+                    lo, hi = ival(x["a"][1], d)
+                    if lo is not None and hi is not None and lo >= 0 and hi <= n - 1:
+                        continue
+                    idx = L.lin(x["a"][1])
+                    ty = atom_types(x["a"][1])
+                    if idx is not None and nonneg(d, L.sub(({}, n - 1), idx), ty) and (not idx[0] or nonneg(d, idx, ty)):
+                        continue
+                    bad = "index in [%s, %s] is not known to stay in 0..%d" % ("?" if lo is None else lo, "?" if hi is None else hi, n - 1)
+                if bad is not None:
+                    ok2, det2 = walk_index_ok(self.P, self.E, f, x, n)
+                    if ok2:
+                        self.sites.append(Site("M4l", f, x, what, True, "linear walk: " + det2))
+                        continue
+                    idx = L.lin(x["a"][1])
+                    if idx is not None:
+                        forms = [L.sub(({}, n - 1), idx), idx]
+                        if self.require(f, x, "M4l", what, forms, "%s for %s[%d]" % (bad, pp(base), n)):
+                            continue
+                    bad += " (linear walk: %s)" % det2
+                self.sites.append(Site("M4l", f, x, what, bad is None,
+                                       "0 <= index < %d" % n if bad is None else "%s for %s[%d]" % (bad, pp(base), n)))
 
     def _ptr_write(self, f, call, dst, ln, ds, what):
         """Destination is a pointer: judge against the capacity parameter paired with it."""
